@@ -319,8 +319,9 @@ fn fit_with_opts(co: &CubicOffset, tolerance: f64, opts: StrokeOpts) -> BezPath 
 impl StrokeCtx {
     /// Append forward and backward paths to output.
     fn finish(&mut self, style: &Stroke) {
-        // TODO: scale
-        let tolerance = 1e-3;
+        // The round caps and joins are arcs of the unit circle scaled by the half width: the stroke
+        // tolerance in those units is `tolerance / (width / 2)`, which is `join_thresh`.
+        let tolerance = self.join_thresh;
         if self.forward_path.is_empty() {
             return;
         }
@@ -362,8 +363,9 @@ impl StrokeCtx {
     }
 
     fn do_join(&mut self, style: &Stroke, tan0: Vec2) {
-        // TODO: scale
-        let tolerance = 1e-3;
+        // The round caps and joins are arcs of the unit circle scaled by the half width: the stroke
+        // tolerance in those units is `tolerance / (width / 2)`, which is `join_thresh`.
+        let tolerance = self.join_thresh;
         let scale = 0.5 * style.width / tan0.hypot();
         let norm = scale * Vec2::new(-tan0.y, tan0.x);
         let p0 = self.last_pt;
